@@ -42,15 +42,48 @@ def load():
     return main
 
 
+def documented_range(main, w):
+    """the range each box documents, from the current model (the same formulas the search's oracle uses)"""
+    from DHLLDV import DHLLDV_framework
+    s = main.slurry
+    if w == 'Dp_input':
+        return 25.0, 1500.0
+    if w == 'rhos_input':
+        return 1.5, 7.0
+    if w == 'rhom_input':
+        return 1.05, 0.5 * (s.rhos - s.rhol) + s.rhol
+    if w == 'Cv_input':
+        return 0.01, 0.5
+    if w == 'D15_input':
+        return 0.04, s.D50 * 1000 - 0.01
+    if w == 'D50_input':
+        return (max(s.get_dx(0.15) * 1000 + 0.01, DHLLDV_framework.pseudo_dlim(s.Dp, s.nu, s.rhol, s.rhos) * 1000),
+                min(s.get_dx(0.85) * 1000 - 0.01, s.Dp * 1000 * 0.25))
+    if w == 'D85_input':
+        return s.D50 * 1000 + 0.01, s.Dp * 1000 * 0.5
+    raise KeyError(w)
+
+
+def resolve(main, ev):
+    """copy / nudge / edge events -> the concrete text event they stand for in the current state"""
+    kind = ev[0]
+    if kind == 'copy':        # one box is given the text another box shows
+        return ('text', ev[2], getattr(main, ev[1]).value)
+    if kind == 'nudge':       # a box is given its own value plus a small offset, to 4 decimals
+        return ('text', ev[1], f"{float(getattr(main, ev[1]).value) + ev[2]:.4f}")
+    if kind == 'edge':        # just inside / just outside one end of the box's documented range
+        lo, hi = documented_range(main, ev[1])
+        b = lo if ev[2] == 'lo' else hi
+        return ('text', ev[1], f"{b * (1 + ev[3] * 2e-3):.6g}")
+    return ev
+
+
 def fire(main, ev):
+    ev = resolve(main, ev)
     kind = ev[0]
     if kind == 'none':
         return
-    if kind == 'copy':        # one box is given the text another box shows
-        getattr(main, ev[2]).value = getattr(main, ev[1]).value
-    elif kind == 'nudge':     # a box is given its own value plus a small offset, to 4 decimals
-        getattr(main, ev[1]).value = f"{float(getattr(main, ev[1]).value) + ev[2]:.4f}"
-    elif kind == 'text':
+    if kind == 'text':
         getattr(main, ev[1]).value = ev[2]
     elif kind == 'click':
         getattr(main, ev[1]).click()
@@ -183,7 +216,16 @@ def child(events, full_every, want_fresh, light=False):
         before = {w: getattr(main, w).value for w in TEXT_WIDGETS}
         try:
             with contextlib.redirect_stdout(sink):
-                fire(main, ev)
+                rev = resolve(main, ev)
+            rec['resolved'] = list(rev)
+        except BaseException as e:
+            rec['raised'] = 'resolve:' + type(e).__name__ + ': ' + str(e)[:160]
+            rec['texts_before'] = before
+            out.append(rec)
+            break
+        try:
+            with contextlib.redirect_stdout(sink):
+                fire(main, rev)
         except BaseException as e:     # sys.exit from the stop button would be SystemExit
             rec['raised'] = type(e).__name__ + ': ' + str(e)[:160]
             rec['texts_before'] = before
